@@ -123,8 +123,10 @@ def default_cells(neta, netb, row_map=None):
     return out
 
 
-def system_obligations(sa, sb, label, signs=None, compare_j=True):
-    """entry-by-entry equality of two captured systems, matched by unknown identity"""
+def system_obligations(sa, sb, label, signs=None, compare_j=True, subset=False):
+    """entry-by-entry equality of two captured systems, matched by unknown identity.  subset: B's unknowns are a subset
+    of A's (B describes a part of A that is decoupled from the rest): B's block of A's system equals B's system and A has
+    no entry that couples the block to the rest"""
     obs = []
     if sa.get("x") is None:       # fixed-point mode: no update unknowns were created
         return _b_obligations(sa, sb, label, signs)
@@ -134,6 +136,25 @@ def system_obligations(sa, sb, label, signs=None, compare_j=True):
     # strip the stage counter/tag: dx<k>[kind|name] -> kind|name
     ka = [n.split("[", 1)[1][:-1] for n in xa]
     kb = [n.split("[", 1)[1][:-1] for n in xb]
+    if subset:
+        if not set(kb) <= set(ka):
+            return obs, ["unknowns of the part that the whole does not have: %s" % sorted(set(kb) - set(ka))[:4]]
+        pos_a = {k: i for i, k in enumerate(ka)}
+        inb = set(kb)
+        ea, eb = sa["entries"], sb["entries"]
+        seen = set()
+        for (rb, cb), w in eb.items():
+            ra_, ca_ = pos_a[kb[rb]], pos_a[kb[cb]]
+            seen.add((ra_, ca_))
+            obs.append(("%s J[%s, %s]" % (label, kb[rb], kb[cb]), ea.get((ra_, ca_), 0.0), w))
+        for (ra_, ca_), v in ea.items():
+            if (ka[ra_] in inb) != (ka[ca_] in inb):
+                obs.append(("%s J[%s, %s] couples the part to the rest" % (label, ka[ra_], ka[ca_]), v, 0.0))
+            elif ka[ra_] in inb and (ra_, ca_) not in seen:
+                obs.append(("%s J[%s, %s]" % (label, ka[ra_], ka[ca_]), v, 0.0))
+        for rb in range(sb["n"]):
+            obs.append(("%s b[%s]" % (label, kb[rb]), sa["b"][pos_a[kb[rb]]], sb["b"][rb]))
+        return obs, []
     if sorted(ka) != sorted(kb):
         return obs, ["unknown sets differ: only in A %s, only in B %s" % (sorted(set(ka) - set(kb))[:4],
                                                                           sorted(set(kb) - set(ka))[:4])]
@@ -277,12 +298,15 @@ def equiv_worker(job, ra, rb, fp_prefix, replay_kind, witnesses_fn=None, cells_f
         obs = []
         if compare_systems:
             sysa, sysb = pa.systems[na_pre:], pb.systems[nb_pre:]
+            if compare_systems == "heat":
+                # only the thermal systems of the two runs correspond (e.g. mode "heat" vs. mode "sequential")
+                sysa, sysb = [s_ for s_ in sysa if s_.get("heat")], [s_ for s_ in sysb if s_.get("heat")]
             if len(sysa) != len(sysb):
                 viol.append({"fingerprint": fp_prefix + "/nsystems", "detail": {"A": len(sysa), "B": len(sysb)},
                              "replay": dict({"kind": replay_kind, "spec": spec, "specB": rb.spec, "values": {},
                                              "numba": job.get("numba"), "pfmode": job.get("pfmode")}, **(replay_extra or {}))})
             for k, (sa, sb) in enumerate(zip(sysa, sysb)):
-                o, e = system_obligations(sa, sb, "system %d" % k, signs=rb.signs)
+                o, e = system_obligations(sa, sb, "system %d" % k, signs=rb.signs, subset=(compare_systems == "subset"))
                 for msg in e:
                     # the two descriptions do not even have the same unknowns: a candidate like any other
                     viol.append({"fingerprint": fp_prefix + "/system/unknowns", "detail": {"job": job["name"], "what": msg},
